@@ -55,6 +55,7 @@ type lruStep struct {
 	Order []string `json:"order"`
 	Cur   int      `json:"cur"`
 	Now   int      `json:"now"`
+	Exp   []int    `json:"exp"`
 }
 
 type lruCase struct {
@@ -100,6 +101,20 @@ func lruTTL(t int) time.Duration {
 		return -1
 	}
 	return time.Duration(t) * lruTick
+}
+
+// lruDeadlines: the deadline of every entry in recency order, in ticks of the virtual clock (0: none)
+func lruDeadlines(c *LRUCache) []int {
+	out := []int{}
+	for e := c.evictList.Front(); e != nil; e = e.Next() {
+		at := e.Value.(*Entry).ExpiresAt
+		if at.IsZero() {
+			out = append(out, 0)
+		} else {
+			out = append(out, int(at.Sub(time.Unix(1700000000, 0))/lruTick))
+		}
+	}
+	return out
 }
 
 func lruOrder(c *LRUCache) []string {
@@ -270,10 +285,14 @@ func TestVerifLruReplay(t *testing.T) {
 			// projected state; a call that hangs holds the mutex, so only read after return
 			h.c.mu.Lock()
 			ord := lruOrder(h.c)
+			dls := lruDeadlines(h.c)
 			cur := h.c.currentSize
 			nitems := len(h.c.items)
 			h.c.mu.Unlock()
 			chk("order", st.Order, ord)
+			if st.Exp != nil {
+				chk("deadlines", st.Exp, dls)
+			}
 			chk("cur", st.Cur*lruUnit, cur)
 			chk("index", len(st.Order), nitems)
 			s := h.c.Stats()
